@@ -292,6 +292,9 @@ func init() {
 		storeCell(fieldCell(cell, "L"), cc.args[0], cc.c.g)
 		return refTo(cell)
 	}}
+	// sync.Cond follows the runtime's notifyList exactly: a waiter takes ticket = wait++ and is woken once
+	// notify > ticket; Signal increments notify (if anybody waits), Broadcast sets notify = wait. Hence
+	// Signal wakes waiters in FIFO order, as the real runtime does (needed for faithful native replay).
 	models["(*sync.Cond).Wait"] = &Model{Visible: true,
 		Enabled: func(cc *CallCtx, ph int) *Term {
 			if ph == 0 {
@@ -304,9 +307,8 @@ func init() {
 				return TS.True
 			}
 			cc.e.foot.read(mu.Obj, cc.c.g)
-			w := termOf(condWaiters(cd))
-			bit := BV(uint64(1)<<uint(cc.c.gor.idx), 32)
-			return And(Eq(BvAnd(w, bit), BV(0, 32)), lockerFree(mu))
+			tk := termOf(cc.e.condTicket(cd, cc.c.gor))
+			return And(Ult(tk, termOf(condNotify(cd))), lockerFree(mu))
 		},
 		Exec: func(cc *CallCtx, ph int) (Value, bool) {
 			cd := cc.recvCell(0)
@@ -318,14 +320,11 @@ func init() {
 				cc.e.raise(cc.c, TS.True, "nil pointer dereference (cond.L)")
 				return nil, true
 			}
-			if cc.c.gor.idx >= 32 {
-				inconclusive("too many goroutines for the cond waiter bitset")
-			}
-			bit := BV(uint64(1)<<uint(cc.c.gor.idx), 32)
 			wc := condWaiters(cd)
 			if ph == 0 {
 				cc.e.lockerUnlock(cc.c, mu)
-				cc.e.upd(cc.c, wc, BvOr(termOf(wc), bit))
+				cc.e.upd(cc.c, cc.e.condTicket(cd, cc.c.gor), termOf(wc))
+				cc.e.upd(cc.c, wc, Add(termOf(wc), BV(1, 32)))
 				return nil, false
 			}
 			cc.e.lockerLock(cc.c, mu)
@@ -338,14 +337,12 @@ func init() {
 				return false
 			}
 			do := func() {
-				wc := condWaiters(cd)
+				wc, nc := condWaiters(cd), condNotify(cd)
 				if signal {
-					// wake the lowest-numbered waiter (Go wakes the longest waiting one; with at most
-					// one waiter per cond in the harnesses in scope the two coincide)
-					w := termOf(wc)
-					cc.e.upd(cc.c, wc, BvAnd(w, Sub(w, BV(1, 32))))
+					some := Not(Eq(termOf(wc), termOf(nc)))
+					cc.e.upd(cc.c, nc, Ite(some, Add(termOf(nc), BV(1, 32)), termOf(nc)))
 				} else {
-					cc.e.upd(cc.c, wc, BV(0, 32))
+					cc.e.upd(cc.c, nc, termOf(wc))
 				}
 			}
 			mu := condLocker(cc, cd)
@@ -520,6 +517,19 @@ func init() {
 }
 
 func condWaiters(cd *Cell) *Cell { return fieldCell(fieldCell(cd, "notify"), "wait") }
+func condNotify(cd *Cell) *Cell  { return fieldCell(fieldCell(cd, "notify"), "notify") }
+
+// condTicket: the heap cell holding goroutine g's ticket for cond cd.
+func (e *Engine) condTicket(cd *Cell, g *Gor) *Cell {
+	k := fmt.Sprintf("ticket:%p:%d", cd, g.idx)
+	if o, ok := e.objs[k]; ok {
+		return o.Root
+	}
+	o := newObject(k)
+	o.Root = &Cell{T: types.Typ[types.Uint32], Obj: cd.Obj, Val: BV(0, 32), Path: fmt.Sprintf(".ticket[g%d]", g.idx)}
+	e.objs[k] = o
+	return o.Root
+}
 
 // condLocker returns the mutex cell behind cond.L (nil if L is nil). A Cond's L is written once by
 // NewCond (under the allocating path's guard), so a residual nil alternative from the guarded store
